@@ -126,6 +126,9 @@ func run(t failer, c Case, labels ...string) {
 		return
 	}
 	vk.R.Case(in.changed, string(c.Src))
+	if in.changed && len(c.Src) < 1500 {
+		vk.R.Sample(string(c.Src))
+	}
 	for _, l := range labels {
 		vk.R.Class(l)
 	}
